@@ -1,1 +1,265 @@
-(* C10 - to be filled *)
+(* C10 - Vram classes.
+   Only statements, each closed by [exact]; see Proofs/C10.v.  Link-level theorems hold for every
+   previous-pass environment [env]/[senv], object symbols [ext], kind of pass [final] and starting state. *)
+From Slinky Require Import Model.Types Model.Runtime Model.Style Model.Script Model.Writer Model.LdSem.
+From Slinky Require Import Spec.C17 Spec.C04 Spec.C03 Spec.C10 Proofs.C18 Proofs.C17 Proofs.C04 Proofs.C03 Proofs.C10.
+From Coq Require Import ZArith.
+Local Open Scope string_scope.
+Local Open Scope Z_scope.
+
+(* ====================================================================== *)
+(* script level                                                            *)
+(* ====================================================================== *)
+
+(* what an included segment is preceded by: the start statements of its class exactly when the class
+   is not yet marked as emitted; the class is marked afterwards; a class it names is declared *)
+Theorem C10_segment_class : forall rt stg cfg classes seg ws s ws',
+  add_segment rt stg cfg classes seg ws = Ok (s, ws') ->
+  should_emit rt (sg_conds seg) = true ->
+  exists rest,
+    s = (class_prefix stg classes seg (ws_emitted ws) ++ seg_head stg seg ++ rest)%list /\
+    ws_emitted ws' = emitted_after seg (ws_emitted ws) /\
+    (forall cn, sg_vram_class seg = Some cn -> exists c, class_get classes cn = Some c).
+Proof. exact segment_class. Qed.
+
+(* the mark of a class after a list of segments: it was marked before, or some included segment of
+   the list names the class (so the marks only grow) *)
+Theorem C10_emitted_iff : forall rt stg cfg classes cn segs ws s ws',
+  fold_out (add_segment rt stg cfg classes) segs ws = Ok (s, ws') ->
+  mem_str cn (ws_emitted ws') = mem_str cn (ws_emitted ws) || names_class rt cn segs.
+Proof. exact emitted_fold. Qed.
+
+Theorem C10_emitted_monotone : forall rt stg cfg classes cn segs ws s ws',
+  fold_out (add_segment rt stg cfg classes) segs ws = Ok (s, ws') ->
+  mem_str cn (ws_emitted ws) = true -> mem_str cn (ws_emitted ws') = true.
+Proof. exact emitted_monotone. Qed.
+
+(* C10_once_before: the start statements of a class are emitted in front of the first included
+   segment that names it (before that segment's own first statement), the class is unmarked until
+   then and marked from then on ... *)
+Theorem C10_once_before : forall rt stg cfg classes l1 seg l2 ws body ws' cn c,
+  fold_out (add_segment rt stg cfg classes) (l1 ++ seg :: l2) ws = Ok (body, ws') ->
+  should_emit rt (sg_conds seg) = true -> sg_vram_class seg = Some cn -> class_get classes cn = Some c ->
+  mem_str cn (ws_emitted ws) = false -> names_class rt cn l1 = false ->
+  exists b1 wsa rest wsb b2,
+    fold_out (add_segment rt stg cfg classes) l1 ws = Ok (b1, wsa) /\
+    add_segment rt stg cfg classes seg wsa = Ok ((class_start_stmts stg c cn ++ seg_head stg seg ++ rest)%list, wsb) /\
+    fold_out (add_segment rt stg cfg classes) l2 wsb = Ok (b2, ws') /\
+    body = (b1 ++ (class_start_stmts stg c cn ++ seg_head stg seg ++ rest) ++ b2)%list /\
+    mem_str cn (ws_emitted wsa) = false /\ mem_str cn (ws_emitted wsb) = true /\ mem_str cn (ws_emitted ws') = true.
+Proof. exact once_before. Qed.
+
+(* ... and a marked class gets no start statements again: hence once *)
+Theorem C10_never_again : forall stg classes seg emitted cn,
+  sg_vram_class seg = Some cn -> mem_str cn emitted = true -> class_prefix stg classes seg emitted = [].
+Proof. exact never_again. Qed.
+
+(* a class that no included segment names stays unmarked: no start statements, no size statement *)
+Theorem C10_unused_class : forall rt stg cfg classes cn segs ws s ws',
+  fold_out (add_segment rt stg cfg classes) segs ws = Ok (s, ws') ->
+  mem_str cn (ws_emitted ws) = false -> names_class rt cn segs = false ->
+  mem_str cn (ws_emitted ws') = false.
+Proof. exact unused_class. Qed.
+
+(* the size statements at the end of SECTIONS: one per marked class, in declaration order *)
+Theorem C10_sizes : forall st classes ws,
+  end_sections_body st classes ws =
+  sep_concat [map (class_size_stmt (linker_symbols_style st)) (emitted_classes classes ws);
+              tail_allow st; tail_extra st; tail_discard st].
+Proof. exact class_sizes. Qed.
+
+(* C10_missing_class *)
+Theorem C10_missing_class : forall rt stg cfg classes seg ws cn,
+  sg_vram_class seg = Some cn -> class_get classes cn = None ->
+  add_segment rt stg cfg classes seg ws =
+  if should_emit rt (sg_conds seg) then Err (EMissingVramClassForSegment (sg_name seg) cn) else Ok ([], ws).
+Proof. exact missing_class. Qed.
+
+(* a class start symbol is never a class end symbol, whatever the two class names *)
+Theorem C10_start_not_end : forall sty a b, vram_class_end sty b <> vram_class_start sty a.
+Proof. exact class_start_not_end. Qed.
+
+(* ====================================================================== *)
+(* link level                                                              *)
+(* ====================================================================== *)
+
+(* C10_start_value: after the start statements of a class, END = 0 and START = its fixed_vram, or the
+   value of its fixed_symbol text, or MAX(0, the ends of the classes it follows) *)
+Theorem C10_start_value : forall env senv ext final stg c name st,
+  let sty := linker_symbols_style stg in
+  let START := vram_class_start sty name in
+  let END := vram_class_end sty name in
+  let st' := run env senv ext final (class_start_stmts stg c name) st in
+  val st' END = Some 0 /\
+  (forall v, vc_fixed_vram c = Some v -> val st' START = Some (Z.of_N v)) /\
+  (forall s v, vc_fixed_vram c = None -> vc_fixed_symbol c = Some s ->
+               eval_raw env ext st s = Ok v -> val st' START = Some v) /\
+  (forall es, vc_fixed_vram c = None -> vc_fixed_symbol c = None ->
+              Forall2 (fun o e => sym_lookup (vram_class_end sty o) st env ext = Some e) (vc_follows_classes c) es ->
+              val st' START = Some (fold_left Z.max es 0)).
+Proof. exact class_start_value. Qed.
+
+(* C10_end_running_max: one update ... *)
+Theorem C10_end_running_max : forall env senv ext final st sym other a b,
+  val st sym = Some a -> sym_lookup other st env ext = Some b ->
+  exec_top_stmt env senv ext final st (SMaxSelf sym other) = set_sym sym (Z.max a b) false st.
+Proof. exact top_maxself. Qed.
+
+(* ... and a whole run: statements that do not assign END, interleaved with updates
+   END = MAX(END, x_i) where x_i has the value v_i, leave END = MAX(initial value, v_1, ..., v_n) *)
+Theorem C10_end_is_max : forall env senv ext final END st vs st',
+  MaxRun env senv ext final END st vs st' ->
+  forall a, val st END = Some a -> val st' END = Some (fold_left Z.max vs a).
+Proof. exact max_run. Qed.
+
+(* every included segment of a class ends with "END = MAX(END, name_VRAM_END)" *)
+Theorem C10_member_shape : forall rt stg cfg classes seg ws s ws' cn,
+  add_segment rt stg cfg classes seg ws = Ok (s, ws') ->
+  should_emit rt (sg_conds seg) = true -> sg_vram_class seg = Some cn ->
+  exists rest,
+    s = (class_prefix stg classes seg (ws_emitted ws) ++
+         (seg_head stg seg ++ rest ++ seg_foot_main stg seg) ++
+         [SBlank; class_end_max (linker_symbols_style stg) cn seg; SBlank])%list.
+Proof. exact member_shape. Qed.
+
+(* the end of the class after a member segment: MAX(its value before - 0 when this segment is the
+   first member -, the VRAM end of the segment) *)
+Theorem C10_member_class_end : forall env senv ext final rt stg cfg classes seg ws s ws' cn st0 a ve,
+  add_segment rt stg cfg classes seg ws = Ok (s, ws') ->
+  should_emit rt (sg_conds seg) = true -> sg_vram_class seg = Some cn ->
+  let sty := linker_symbols_style stg in
+  let END := vram_class_end sty cn in
+  let VE := segment_vram_end sty (sg_name seg) in
+  forall rest,
+    s = (class_prefix stg classes seg (ws_emitted ws) ++
+         (seg_head stg seg ++ rest ++ seg_foot_main stg seg) ++
+         [SBlank; class_end_max sty cn seg; SBlank])%list ->
+    existsb (assigns END) (seg_head stg seg ++ rest ++ seg_foot_main stg seg) = false ->
+    (mem_str cn (ws_emitted ws) = true -> val st0 END = Some a) ->
+    (mem_str cn (ws_emitted ws) = false -> a = 0) ->
+    sym_lookup VE (run env senv ext final
+                       (class_prefix stg classes seg (ws_emitted ws) ++
+                        seg_head stg seg ++ rest ++ seg_foot_main stg seg) st0) env ext = Some ve ->
+    val (run env senv ext final s st0) END = Some (Z.max a ve).
+Proof. exact member_class_end. Qed.
+
+(* over the whole list of segments: the end of class cn is MAX(its value before - 0 when the class is
+   started in this list -, the VRAM ends of all its emitted member segments), the VRAM ends being those
+   read at the end of the pass.  Hypotheses on names: the class end symbol is assigned only by
+   statements of the two shapes slinky uses for it (end_clean: no segment, section or linker-offset
+   symbol happens to have the same name), and the VRAM end of each member is assigned once *)
+Theorem C10_class_end_is_max : forall env senv ext final rt stg cfg classes cn segs ws body ws' st0 a,
+  fold_out (add_segment rt stg cfg classes) segs ws = Ok (body, ws') ->
+  let sty := linker_symbols_style stg in
+  let END := vram_class_end sty cn in
+  let st' := run env senv ext final body st0 in
+  end_clean END body = true ->
+  (forall seg, In seg (members rt cn segs) -> defined_once (segment_vram_end sty (sg_name seg)) body = true) ->
+  (mem_str cn (ws_emitted ws) = true -> val st0 END = Some a) ->
+  (mem_str cn (ws_emitted ws) = false -> a = 0) ->
+  exists vs,
+    Forall2 (fun seg v => val st' (segment_vram_end sty (sg_name seg)) = Some v) (members rt cn segs) vs /\
+    (mem_str cn (ws_emitted ws') = true -> val st' END = Some (fold_left Z.max vs a)).
+Proof. exact class_end_is_max. Qed.
+
+Theorem C10_class_end_injective : forall sty a b, vram_class_end sty a = vram_class_end sty b -> a = b.
+Proof. exact vram_class_end_inj. Qed.
+
+(* C10_member_starts_at_class: the address expression of a member is the class start symbol ... *)
+Theorem C10_member_addr : forall env senv ext st here START v,
+  sym_lookup START st env ext = Some v -> eval_expr env senv ext st here (ESym START) = Ok v.
+Proof. exact member_addr_value. Qed.
+
+(* ... so the allocatable section of a member is placed at the value of the class start symbol
+   (as left by the class start statements when this segment is the first member) *)
+Theorem C10_member_starts_at_class : forall env senv ext final rt stg cfg classes seg ws s ws' cn st0,
+  add_segment rt stg cfg classes seg ws = Ok (s, ws') ->
+  should_emit rt (sg_conds seg) = true -> sg_vram_class seg = Some cn -> at_most_one_addr seg ->
+  let sty := linker_symbols_style stg in
+  let START := vram_class_start sty cn in
+  let st' := run env senv ext final s st0 in
+  vram_names_distinct sty (sg_name seg) s = true ->
+  ~ In (LForwardRef (alloc_name seg)) (l_errors st') ->
+  sizes_ok st0 ->
+  existsb (assigns START) (seg_head stg seg ++ sections_kind_start sty cfg seg false) = false ->
+  exists o1 o2,
+    l_secs st' = (l_secs st0 ++ [o1; o2])%list /\ os_name o1 = alloc_name seg /\
+    sym_lookup START (run env senv ext final (class_prefix stg classes seg (ws_emitted ws)) st0) env ext
+    = Some (os_vma o1).
+Proof. exact member_starts_at_class. Qed.
+
+(* C10_size *)
+Theorem C10_size : forall env senv ext final sty cn st e s,
+  val st (vram_class_end sty cn) = Some e -> val st (vram_class_start sty cn) = Some s ->
+  exec_top_stmt env senv ext final st (class_size_stmt sty cn) = set_sym (vram_class_size sty cn) (e - s) false st.
+Proof. exact class_size_value. Qed.
+
+(* ====================================================================== *)
+(* examples                                                                *)
+(* ====================================================================== *)
+
+(* the sample document: "overlay" is named by ovl_a (second segment), not by boot *)
+Example ex_names_class :
+  names_class ex_rt "overlay" [nth 0 (doc_segments ex_doc) (ex_segment "" [] None None no_conds)] = false /\
+  names_class ex_rt "overlay" (doc_segments ex_doc) = true /\
+  (exists c, class_get (doc_vram_classes ex_doc) "overlay" = Some c).
+Proof. repeat split; try reflexivity. eexists. reflexivity. Qed.
+
+(* nothing in the middle of ovl_a assigns overlay_VRAM_CLASS_END or overlay_VRAM_CLASS_START *)
+Example ex_class_names_free :
+  match add_segment ex_rt ex_settings cfg_normal (doc_vram_classes ex_doc)
+                    (nth 1 (doc_segments ex_doc) (ex_segment "" [] None None no_conds)) ws0 with
+  | Ok (s, _) =>
+      List.length (filter (assigns "overlay_VRAM_CLASS_END") s) = 2%nat /\
+      List.length (filter (assigns "overlay_VRAM_CLASS_START") s) = 1%nat
+  | Err _ => False
+  end.
+Proof. vm_compute. split; reflexivity. Qed.
+
+(* the hypotheses of C10_class_end_is_max on the sample document *)
+Example ex_class_end_hyps :
+  match fold_out (add_segment ex_rt ex_settings cfg_normal (doc_vram_classes ex_doc)) (doc_segments ex_doc) ws0 with
+  | Ok (body, _) =>
+      end_clean "overlay_VRAM_CLASS_END" body = true /\
+      forallb (fun seg => defined_once (segment_vram_end Splat (sg_name seg)) body)
+              (members ex_rt "overlay" (doc_segments ex_doc)) = true /\
+      List.length (members ex_rt "overlay" (doc_segments ex_doc)) = 1%nat
+  | Err _ => False
+  end.
+Proof. vm_compute. repeat split; reflexivity. Qed.
+
+(* a full link: the class starts at its fixed_vram, its member starts there, its end is the member's
+   VRAM end and its size their difference *)
+Example ex_link_class :
+  let st := layout ex_script ex_universe [("main", 5)] in
+  l_errors st = [] /\
+  val st "overlay_VRAM_CLASS_START" = Some 2148532224 /\ val st "ovl_a_VRAM" = Some 2148532224 /\
+  val st "ovl_a_VRAM_END" = Some 2148532256 /\ val st "overlay_VRAM_CLASS_END" = Some 2148532256 /\
+  val st "overlay_VRAM_CLASS_SIZE" = Some 32.
+Proof. vm_compute. repeat split; reflexivity. Qed.
+
+(* a document naming an undeclared class is rejected *)
+Example ex_missing_class :
+  add_segment ex_rt ex_settings cfg_normal [] (ex_segment "ovl_a" [ex_obj "a.o"] (Some "overlay") None no_conds) ws0
+  = Err (EMissingVramClassForSegment "ovl_a" "overlay").
+Proof. reflexivity. Qed.
+
+Print Assumptions C10_segment_class.
+Print Assumptions C10_emitted_iff.
+Print Assumptions C10_emitted_monotone.
+Print Assumptions C10_once_before.
+Print Assumptions C10_never_again.
+Print Assumptions C10_unused_class.
+Print Assumptions C10_sizes.
+Print Assumptions C10_missing_class.
+Print Assumptions C10_start_not_end.
+Print Assumptions C10_start_value.
+Print Assumptions C10_end_running_max.
+Print Assumptions C10_end_is_max.
+Print Assumptions C10_class_end_is_max.
+Print Assumptions C10_class_end_injective.
+Print Assumptions C10_member_shape.
+Print Assumptions C10_member_class_end.
+Print Assumptions C10_member_addr.
+Print Assumptions C10_member_starts_at_class.
+Print Assumptions C10_size.
